@@ -231,9 +231,6 @@ func (s *Solver) Check() (Result, error) {
 	if s.dead {
 		return Unknown, fmt.Errorf("solver %s is dead", s.Kind)
 	}
-	if _, err := s.sync(); err != nil {
-		return Unknown, err
-	}
 	t0 := time.Now()
 	s.send("(check-sat)")
 	out, err := s.sync()
@@ -247,7 +244,9 @@ func (s *Solver) Check() (Result, error) {
 		s.Stats.Unknown++
 		return Unknown, err
 	}
-	switch strings.TrimSpace(out) {
+	// anything printed before the verdict (errors are caught above) is ignored
+	lines := strings.Split(strings.TrimSpace(out), "\n")
+	switch strings.TrimSpace(lines[len(lines)-1]) {
 	case "sat":
 		s.Stats.Sat++
 		return Sat, nil
